@@ -273,8 +273,17 @@ def run(ctx):
                     elif step == "set_bad":
                         if p.has_bounds():
                             v = (p.max_bound + 1.0) if p.max_bound is not None else (p.min_bound - 1.0)
-                            if rng.random() < 0.2:
+                            r_form = rng.random()
+                            if r_form < 0.2:
                                 v = "text"
+                            elif r_form < 0.5:
+                                # the same out-of-bounds request as another numeric type (all are numbers.Number)
+                                far = int(np.ceil(p.max_bound)) + 2 if p.max_bound is not None else int(np.floor(p.min_bound)) - 2
+                                forms = [np.float32(v), np.float64(v), np.int64(far), np.int32(far), np.int16(far)]
+                                if far >= 0:
+                                    forms += [np.uint8(min(far, 250)), np.uint16(far)]
+                                v = forms[int(rng.integers(len(forms)))]
+                                ctx.bucket("out_of_bounds_value_as_numpy_type")
                         else:
                             v = pick_unit(rng)
                     else:   # a value its component cannot take
